@@ -26,7 +26,7 @@ META = dict(
     title="Lanczos, stochastic log-determinant and ELBO estimators are exact in the limit",
     technique=("dense eigh / closed-form Gaussian evidence oracles; probes of the stochastic estimator "
                "recorded at run time; sigma-point sample sets make sample averages exact"),
-    rule=("families lanczos (n 2..12, spectra: wide, clustered, repeated, geometric; dense and matrix-free, "
+    rule=("families lanczos (n 2..24, spectra: wide, clustered, repeated, geometric; dense and matrix-free, "
           "shaped vectors; order n and < n), slq (same operators, order >= n and < n, 1-4 probes, vmap/lmap), "
           "elbo_re (1-5 data x 2-6 latent, Q in {exact, shifted mean, perturbed covariance}, options eigsh/slq x "
           "signal/data/auto x metric_jit x slq_jit x compute_all / n_eigenvalues x batches x resume at k), "
@@ -119,7 +119,7 @@ class Bad:
 # ------------------------------------------------------------------------------------------
 def case_lanczos(ck, rng, bad):
     jnp, L, jft = ck.state["jnp"], ck.state["L"], ck.state["jft"]
-    n = int(rng.integers(2, 13))
+    n = int(pick(rng, list(range(2, 13)) + [10, 12, 12, 16, 20, 24]))
     kind, ev = gen_spectrum(rng, n)
     A, Qm = spd_with_spectrum(rng, ev)
     shaped = n % 2 == 0 and rng.integers(0, 3) == 0
@@ -128,7 +128,7 @@ def case_lanczos(ck, rng, bad):
     Aj = jnp.asarray(A)
     mat = (lambda v: (Aj @ v.reshape(-1)).reshape(vshape))
     v = rng.standard_normal(vshape)
-    order = n if rng.integers(0, 2) else int(rng.integers(1, n + 1))
+    order = n if rng.integers(0, 5) < 3 else int(rng.integers(1, n + 1))
     T, B = jft.lanczos.lanczos_tridiag(mat, jnp.asarray(v), order=order)
     T, B = np.asarray(T), np.asarray(B).reshape(order, n)
     desc = dict(fam="lanczos", n=n, spectrum=kind, order=order, shaped=bool(shaped))
@@ -343,7 +343,7 @@ def case_elbo_re(ck, rng, bad, with_cl=False):
     use_data = space == "data" or (space == "auto" and m <= n)
     kw = dict(trace_log_method=method, trace_log_space=space, metric_jit=bool(rng.integers(0, 2)),
               n_batches=int(rng.integers(1, 4)), verbose=False)
-    mode = pick(rng, ["all", "all", "compute_all", "partial", "resume"])
+    mode = pick(rng, ["all", "all", "compute_all", "partial", "resume"] + (["partial"] * 3 if method == "slq" else []))
     if nrel == 1 and mode in ("partial", "resume"):
         mode = "all"
     k = nrel
